@@ -1,7 +1,10 @@
 import LocustModel.Wire.ApiInts
 /-
   Lemmas for C16 (integer response codec): the statistics loop computes bounds of the first and
-  second differences; each encoder loop produces exactly the differences its decoder loop sums up.
+  second differences (exactly, in i128); each encoder loop produces exactly the differences its decoder
+  loop sums up.  The double-delta pair and the Range decoder work modulo 2^64 (`wrap64`): the lemmas
+  below show that the wrapped intermediate values still determine the exact result whenever the result
+  is an i64.
 -/
 namespace LM.Wire.ApiInts
 open LM
@@ -10,27 +13,55 @@ theorem mem_deltasFrom_cons {prev c : Int} {rest : List Int} {d : Int} :
     d ∈ deltasFrom prev (c :: rest) ↔ d = c - prev ∨ d ∈ deltasFrom c rest := by
   simp [deltasFrom]
 
-/-- The statistics loop succeeds when all adjacent differences fit i64, and returns bounds for all
-    first differences (`deltasFrom prev rest`) and all second differences. -/
+/-! ### Two's-complement facts -/
+
+/-- `wrap64 x` differs from `x` by a multiple of 2^64. -/
+theorem wrap64_spec (x : Int) : ∃ k : Int, wrap64 x = x + 18446744073709551616 * k :=
+  ⟨-((x + 9223372036854775808) / 18446744073709551616), by unfold wrap64; omega⟩
+
+/-- A value congruent to an i64 `y` modulo 2^64 wraps to `y`. -/
+theorem wrap64_eq_of_congr {x y k : Int} (hy : inI64 y) (h : x = y + 18446744073709551616 * k) :
+    wrap64 x = y := by
+  unfold inI64 I64_MIN I64_MAX at hy; unfold wrap64; omega
+
+theorem wrap64_sub_wrap64 (a b : Int) : wrap64 (wrap64 a - wrap64 b) = wrap64 (a - b) := by
+  unfold wrap64; omega
+
+theorem wrap64_wrap64_add (a b : Int) : wrap64 (wrap64 a + b) = wrap64 (a + b) := by
+  unfold wrap64; omega
+
+theorem wrap64_add_wrap64 (a b : Int) : wrap64 (a + wrap64 b) = wrap64 (a + b) := by
+  unfold wrap64; omega
+
+/-- `start.wrapping_add((i as i64).wrapping_mul(step))` is exact whenever `start + i * step` is an i64. -/
+theorem wrap_range_elem (a s i : Int) (h : inI64 (a + i * s)) :
+    wrap64 (a + wrap64 (wrap64 i * s)) = a + i * s := by
+  obtain ⟨k1, h1⟩ := wrap64_spec i
+  obtain ⟨k2, h2⟩ := wrap64_spec (wrap64 i * s)
+  apply wrap64_eq_of_congr (k := k1 * s + k2) h
+  rw [h2, h1, Int.add_mul, Int.mul_add, Int.mul_assoc]
+  omega
+
+/-! ### Statistics -/
+
+/-- The statistics loop returns bounds for all first differences (`deltasFrom prev rest`) and all second
+    differences — exact integers, whatever their size. -/
 theorem statsLoop_spec : ∀ (rest : List Int) (prev pd : Int) (st : DeltaStats),
-    (∀ d ∈ deltasFrom prev rest, inI64 d) →
-    ∃ st', statsLoop rest prev pd st = .ok st' ∧
-      st'.minDelta ≤ st.minDelta ∧ st.maxDelta ≤ st'.maxDelta ∧
-      st'.minDD ≤ st.minDD ∧ st.maxDD ≤ st'.maxDD ∧
-      (∀ d ∈ deltasFrom prev rest, st'.minDelta ≤ d ∧ d ≤ st'.maxDelta) ∧
-      (∀ dd ∈ deltasFrom pd (deltasFrom prev rest), st'.minDD ≤ dd ∧ dd ≤ st'.maxDD)
-  | [], prev, pd, st, _ => ⟨st, rfl, Int.le_refl _, Int.le_refl _, Int.le_refl _, Int.le_refl _,
+    let st' := statsLoop rest prev pd st
+    st'.minDelta ≤ st.minDelta ∧ st.maxDelta ≤ st'.maxDelta ∧
+    st'.minDD ≤ st.minDD ∧ st.maxDD ≤ st'.maxDD ∧
+    (∀ d ∈ deltasFrom prev rest, st'.minDelta ≤ d ∧ d ≤ st'.maxDelta) ∧
+    (∀ dd ∈ deltasFrom pd (deltasFrom prev rest), st'.minDD ≤ dd ∧ dd ≤ st'.maxDD)
+  | [], prev, pd, st => ⟨Int.le_refl _, Int.le_refl _, Int.le_refl _, Int.le_refl _,
       by simp [deltasFrom], by simp [deltasFrom]⟩
-  | c :: rest, prev, pd, st, h => by
-    have hd : inI64 (c - prev) := h _ (by simp [deltasFrom])
-    obtain ⟨st', he, h1, h2, h3, h4, h5, h6⟩ :=
+  | c :: rest, prev, pd, st => by
+    obtain ⟨h1, h2, h3, h4, h5, h6⟩ :=
       statsLoop_spec rest c (c - prev)
         { minDelta := min st.minDelta (c - prev), maxDelta := max st.maxDelta (c - prev),
           minDD := min st.minDD (c - prev - pd), maxDD := max st.maxDD (c - prev - pd) }
-        (fun d hd' => h d (by simp [deltasFrom, hd']))
     simp only at h1 h2 h3 h4
-    refine ⟨st', ?_, by omega, by omega, by omega, by omega, ?_, ?_⟩
-    · simp [statsLoop, subI64, hd, he]
+    simp only [statsLoop]
+    refine ⟨by omega, by omega, by omega, by omega, ?_, ?_⟩
     · intro d hd'
       rcases mem_deltasFrom_cons.mp hd' with rfl | hr
       · omega
@@ -41,17 +72,29 @@ theorem statsLoop_spec : ∀ (rest : List Int) (prev pd : Int) (st : DeltaStats)
       · omega
       · exact h6 dd hr
 
-/-- If some adjacent difference does not fit i64, the statistics loop panics (overflow). -/
-theorem statsLoop_fault : ∀ (rest : List Int) (prev pd : Int) (st : DeltaStats),
-    (∃ d ∈ deltasFrom prev rest, ¬ inI64 d) → statsLoop rest prev pd st = .error .overflow
-  | [], _, _, _, h => by simp [deltasFrom] at h
-  | c :: rest, prev, pd, st, h => by
-    by_cases hd : inI64 (c - prev)
-    · obtain ⟨d, hm, hn⟩ := h
-      rcases mem_deltasFrom_cons.mp hm with rfl | hr
-      · exact absurd hd hn
-      · simp [statsLoop, subI64, hd, statsLoop_fault rest c _ _ ⟨d, hr, hn⟩]
-    · simp [statsLoop, subI64, hd]
+/-- For i64 inputs every first difference has magnitude < 2^64 and every second difference < 2^65, so the
+    i128 subtractions of `determine_delta_compressability` cannot overflow (they are modelled as exact). -/
+theorem deltas_in_i128 : ∀ (rest : List Int) (prev : Int), inI64 prev → (∀ x ∈ rest, inI64 x) →
+    ∀ d ∈ deltasFrom prev rest, -18446744073709551616 < d ∧ d < 18446744073709551616
+  | [], _, _, _, d, hd => by simp [deltasFrom] at hd
+  | c :: rest, prev, hp, hall, d, hd => by
+    have hc : inI64 c := hall c (by simp)
+    rcases mem_deltasFrom_cons.mp hd with rfl | hr
+    · unfold inI64 I64_MIN I64_MAX at hp hc; omega
+    · exact deltas_in_i128 rest c hc (fun x hx => hall x (by simp [hx])) d hr
+
+theorem ddeltas_in_i128 : ∀ (ds : List Int) (pd : Int),
+    (-18446744073709551616 < pd ∧ pd < 18446744073709551616) →
+    (∀ d ∈ ds, -18446744073709551616 < d ∧ d < 18446744073709551616) →
+    ∀ dd ∈ deltasFrom pd ds, -36893488147419103232 < dd ∧ dd < 36893488147419103232
+  | [], _, _, _, dd, hd => by simp [deltasFrom] at hd
+  | c :: rest, pd, hp, hall, dd, hd => by
+    have hc := hall c (by simp)
+    rcases mem_deltasFrom_cons.mp hd with rfl | hr
+    · omega
+    · exact ddeltas_in_i128 rest c hc (fun x hx => hall x (by simp [hx])) dd hr
+
+/-! ### Delta layouts (checked i64 arithmetic) -/
 
 /-- `delta_encode` yields the adjacent differences, and the delta decoder sums them back. -/
 theorem deltaLoop_rt (lo hi : Int) (hlo : I64_MIN ≤ lo) (hhi : hi ≤ I64_MAX) :
@@ -71,66 +114,56 @@ theorem deltaLoop_rt (lo hi : Int) (hlo : I64_MIN ≤ lo) (hhi : hi ≤ I64_MAX)
     · simp [deltaLoop, deltasFrom, subI64, hdi, hd, e1]
     · simp [deltasFrom, deltaDecodeLoop, addI64, hsum, hc, e2]
 
-/-- `double_delta_encode` yields the second differences, and the double-delta decoder sums them back. -/
+/-! ### Double-delta layouts (arithmetic modulo 2^64) -/
+
+/-- `double_delta_encode` yields the exact second differences although it keeps the first differences only
+    modulo 2^64 (`pd` is the exact previous first difference, the loop carries `wrap64 pd`), and the
+    double-delta decoder — which carries the same wrapped first difference — sums them back to the input.
+    No hypothesis on the size of the first differences. -/
 theorem ddLoop_rt (lo hi : Int) (hlo : I64_MIN ≤ lo) (hhi : hi ≤ I64_MAX) :
     ∀ (rest : List Int) (prev pd : Int), (∀ x ∈ rest, inI64 x) →
-      (∀ d ∈ deltasFrom prev rest, inI64 d) →
       (∀ dd ∈ deltasFrom pd (deltasFrom prev rest), lo ≤ dd ∧ dd ≤ hi) →
-      ddLoop lo hi prev pd rest = .ok (deltasFrom pd (deltasFrom prev rest)) ∧
-      ddDecodeLoop prev pd (deltasFrom pd (deltasFrom prev rest)) = .ok rest
-  | [], _, _, _, _, _ => by simp [ddLoop, deltasFrom, ddDecodeLoop]
-  | c :: rest, prev, pd, hall, hds, hb => by
-    have hdi : inI64 (c - prev) := hds _ (by simp [deltasFrom])
+      ddLoop lo hi prev (wrap64 pd) rest = .ok (deltasFrom pd (deltasFrom prev rest)) ∧
+      ddDecodeLoop prev (wrap64 pd) (deltasFrom pd (deltasFrom prev rest)) = rest
+  | [], _, _, _, _ => by simp [ddLoop, deltasFrom, ddDecodeLoop]
+  | c :: rest, prev, pd, hall, hb => by
     have hdd := hb (c - prev - pd) (by simp [deltasFrom])
     have hddi : inI64 (c - prev - pd) := by unfold inI64; omega
     have hc : inI64 c := hall c (by simp)
     obtain ⟨e1, e2⟩ := ddLoop_rt lo hi hlo hhi rest c (c - prev) (fun x hx => hall x (by simp [hx]))
-      (fun d hd' => hds d (by simp [deltasFrom, hd']))
       (fun d hd' => hb d (by simp [deltasFrom, hd']))
-    have hs1 : pd + (c - prev - pd) = c - prev := by omega
-    have hs2 : prev + (c - prev) = c := by omega
+    -- encoder: wrap64 (wrap64 (c - prev) - wrap64 pd) = c - prev - pd
+    have henc : wrap64 (wrap64 (c - prev) - wrap64 pd) = c - prev - pd := by
+      rw [wrap64_sub_wrap64, wrap64_id hddi]
+    -- decoder: wrap64 (wrap64 pd + dd) = wrap64 (c - prev);  wrap64 (prev + wrap64 (c - prev)) = c
+    have hld : wrap64 (wrap64 pd + (c - prev - pd)) = wrap64 (c - prev) := by
+      rw [wrap64_wrap64_add]; congr 1; omega
+    have hl : wrap64 (prev + wrap64 (c - prev)) = c := by
+      rw [wrap64_add_wrap64]
+      have : prev + (c - prev) = c := by omega
+      rw [this, wrap64_id hc]
     constructor
-    · simp [ddLoop, deltasFrom, subI64, hdi, hddi, hdd, e1]
-    · simp [deltasFrom, ddDecodeLoop, addI64, hs1, hs2, hdi, hc, e2]
+    · simp [ddLoop, deltasFrom, henc, hdd, e1]
+    · simp [deltasFrom, ddDecodeLoop, hld, hl, e2]
 
-/-- Multiples of the step up to the last index stay in i64 when the last one does. -/
-theorem mul_inI64_of_le {s : Int} {j n : Nat} (hjn : j ≤ n) (hn : inI64 ((n : Int) * s)) :
-    inI64 ((j : Int) * s) := by
-  unfold inI64 I64_MIN I64_MAX at *
-  have hj : (j : Int) ≤ (n : Int) := by exact_mod_cast hjn
-  have hj0 : (0 : Int) ≤ (j : Int) := by omega
-  rcases Int.le_total 0 s with hs | hs
-  · have h1 : (j : Int) * s ≤ (n : Int) * s := Int.mul_le_mul_of_nonneg_right hj hs
-    have h2 : 0 ≤ (j : Int) * s := Int.mul_nonneg hj0 hs
-    omega
-  · have h1 : (n : Int) * s ≤ (j : Int) * s := Int.mul_le_mul_of_nonpos_right hj hs
-    have h2 : (j : Int) * s ≤ 0 := Int.mul_nonpos_of_nonneg_of_nonpos hj0 hs
-    omega
+/-! ### Range layout (arithmetic modulo 2^64) -/
 
-/-- The Range decoder reproduces an arithmetic progression when no multiple of the step overflows. -/
+/-- The Range decoder reproduces every arithmetic progression of i64 values, whatever the size of the
+    intermediate product `i * step`. -/
 theorem range_rt (a s : Int) : ∀ (rest : List Int) (prev : Int) (i : Nat),
     prev = a + (i : Int) * s → (∀ d ∈ deltasFrom prev rest, d = s) → (∀ x ∈ rest, inI64 x) →
-    (∀ j : Nat, j ≤ i + rest.length → inI64 ((j : Int) * s)) →
-    rangeDecodeFrom a s (i + 1) rest.length = .ok rest
-  | [], _, _, _, _, _, _ => by simp [rangeDecodeFrom]
-  | c :: rest, prev, i, hp, hc, hall, hm => by
+    rangeDecodeFrom a s (i + 1) rest.length = rest
+  | [], _, _, _, _, _ => by simp [rangeDecodeFrom]
+  | c :: rest, prev, i, hp, hc, hall => by
     have hd : c - prev = s := hc _ (by simp [deltasFrom])
     have hci : inI64 c := hall c (by simp)
-    have hmi : inI64 (((i + 1 : Nat) : Int) * s) := hm (i + 1) (by simp)
     have hval : a + ((i + 1 : Nat) : Int) * s = c := by
       have : ((i + 1 : Nat) : Int) * s = (i : Int) * s + s := by
         rw [Int.natCast_succ, Int.add_mul, Int.one_mul]
       omega
     have ih := range_rt a s rest c (i + 1) hval.symm (fun d hd' => hc d (by simp [deltasFrom, hd']))
       (fun x hx => hall x (by simp [hx]))
-      (fun j hj => hm j (by simp only [List.length_cons]; omega))
-    simp only [List.length_cons, rangeDecodeFrom, mulI64, hmi, if_true, addI64, hval, hci, ih]
-
-theorem deltas_all_inI64_of_not_overflows {xs : List Int} (h : diffOverflows xs = false) :
-    ∀ d ∈ deltas xs, inI64 d := by
-  intro d hd
-  simp only [diffOverflows, List.any_eq_false] at h
-  have := h d hd
-  simpa using this
+    have hw := wrap_range_elem a s ((i + 1 : Nat) : Int) (by rw [hval]; exact hci)
+    simp only [List.length_cons, rangeDecodeFrom, hw, hval, ih]
 
 end LM.Wire.ApiInts
